@@ -6,6 +6,8 @@ import (
 	"bytes"
 	"fmt"
 	"runtime/debug"
+	"sync"
+	"sync/atomic"
 
 	"github.com/libsv/go-bt/v2"
 	"github.com/libsv/go-bt/v2/bscript"
@@ -146,34 +148,95 @@ func Run(unlock, lock []byte, flags interp.Flags, c TxCtx, dbg interpreter.Debug
 	return RunModel(m, c.Index(), lock, c.Amount, flags, dbg)
 }
 
+// OptPool hands out ONE option value per distinct option for as long as it is installed
+// (SetPool): a caller that validates many inputs builds its option values once and passes them to
+// every Execute call, in different combinations. An option value that remembers anything from the
+// calls it was used in (round-11 seed C18-20: WithFlags accumulating the flags set before it into
+// its captured variable) then changes a later execution that is given the same value.
+type OptPool struct {
+	mu sync.Mutex
+	m  map[string]interpreter.ExecutionOptionFunc
+	// Shared counts the option values handed out more than once.
+	Shared int
+}
+
+// NewOptPool returns an empty pool.
+func NewOptPool() *OptPool { return &OptPool{m: map[string]interpreter.ExecutionOptionFunc{}} }
+
+var curPool atomic.Pointer[OptPool]
+
+// SetPool installs (or, with nil, removes) the pool FlagOpts takes its option values from. The
+// sub-checks that run several executions per case install one for the length of the case.
+func SetPool(p *OptPool) { curPool.Store(p) }
+
+func (p *OptPool) get(key string, mk func() interpreter.ExecutionOptionFunc) interpreter.ExecutionOptionFunc {
+	if p == nil {
+		return mk()
+	}
+	p.mu.Lock()
+	defer p.mu.Unlock()
+	if o, ok := p.m[key]; ok {
+		p.Shared++
+		return o
+	}
+	o := mk()
+	p.m[key] = o
+	return o
+}
+
 // FlagOpts renders a flag set as execution options. The form is a pure function of the case
 // (salt): all flags through WithFlags; or the three flags that have an option function of their
 // own (WithAfterGenesis, WithForkID, WithP2SH) through those, before or after a WithFlags for
-// the rest. All forms must configure the same execution.
+// the rest; with a pool installed also one WithFlags value per flag bit between the named ones.
+// All forms must configure the same execution.
 func FlagOpts(flags interp.Flags, salt int) []interpreter.ExecutionOptionFunc {
+	pool := curPool.Load()
+	withFlags := func(f scriptflag.Flag) interpreter.ExecutionOptionFunc {
+		return pool.get(fmt.Sprintf("F%d", uint32(f)), func() interpreter.ExecutionOptionFunc { return interpreter.WithFlags(f) })
+	}
 	all := scriptflag.Flag(flags)
-	form := salt % 3
+	forms := 3
+	if pool != nil {
+		forms = 5
+	}
+	if salt < 0 {
+		salt = -salt
+	}
+	form := salt % forms
 	if form == 0 {
-		return []interpreter.ExecutionOptionFunc{interpreter.WithFlags(all)}
+		return []interpreter.ExecutionOptionFunc{withFlags(all)}
 	}
 	var named []interpreter.ExecutionOptionFunc
 	rest := all
 	if all.HasFlag(scriptflag.UTXOAfterGenesis) {
-		named = append(named, interpreter.WithAfterGenesis())
+		named = append(named, pool.get("AG", interpreter.WithAfterGenesis))
 		rest &^= scriptflag.UTXOAfterGenesis
 	}
 	if all.HasFlag(scriptflag.EnableSighashForkID) {
-		named = append(named, interpreter.WithForkID())
+		named = append(named, pool.get("FK", interpreter.WithForkID))
 		rest &^= scriptflag.EnableSighashForkID
 	}
 	if all.HasFlag(scriptflag.Bip16) {
-		named = append(named, interpreter.WithP2SH())
+		named = append(named, pool.get("P2SH", interpreter.WithP2SH))
 		rest &^= scriptflag.Bip16
 	}
-	if form == 1 {
-		return append(named, interpreter.WithFlags(rest))
+	switch form {
+	case 1:
+		return append(named, withFlags(rest))
+	case 2:
+		return append([]interpreter.ExecutionOptionFunc{withFlags(rest)}, named...)
 	}
-	return append([]interpreter.ExecutionOptionFunc{interpreter.WithFlags(rest)}, named...)
+	// pool only: one (shared) WithFlags value per remaining flag bit, behind (3) or in front of (4) the named ones
+	var bits []interpreter.ExecutionOptionFunc
+	for b := uint32(0); b < 32; b++ {
+		if f := scriptflag.Flag(1) << b; rest&f != 0 {
+			bits = append(bits, withFlags(f))
+		}
+	}
+	if form == 3 {
+		return append(named, bits...)
+	}
+	return append(bits, named...)
 }
 
 // RunModel executes input idx of model m against the given spent output.
